@@ -612,9 +612,32 @@ func runC11(c *Ctx) {
 		// sortSmall(left, off): off ranges over offsets[1:], left is the previous offset (offsets[0] first)
 		env := Env{}
 		offT := tb.T(call.Call.Args[2])
-		if !Match("idx(slice(?o,c[1],_,_),_)", offT, env) {
-			problems = append(problems, "the chunk end is "+offT.String()+", not an element of offsets[1:]")
-		} else {
+		startT := tb.T(call.Call.Args[1])
+		hdrOfCall := loopHeaderOf(call.Block())
+		wholeLoop := func() bool {
+			// every chunk is sorted: the loop around the call is left only from its header
+			if hdrOfCall == nil {
+				return false
+			}
+			body := loopBodyOf(hdrOfCall)
+			for b := range body {
+				if b == hdrOfCall {
+					continue
+				}
+				if len(b.Succs) == 0 {
+					return false
+				}
+				for _, s2 := range b.Succs {
+					if !body[s2] {
+						return false
+					}
+				}
+			}
+			return true
+		}
+		switch {
+		case Match("idx(slice(?o,c[1],_,_),_)", offT, env):
+			// for _, off := range offsets[1:] { sortSmall(left, off); left = off } with left := offsets[0]
 			left, isPhi := call.Call.Args[1].(*ssa.Phi)
 			okLeft := isPhi
 			if isPhi {
@@ -633,17 +656,41 @@ func runC11(c *Ctx) {
 				okLeft = okLeft && first && prev
 			}
 			if !okLeft {
-				problems = append(problems, "the chunk start is "+tb.T(call.Call.Args[1]).String()+", not φ(offsets[0], the previous chunk end): chunks would overlap or leave gaps")
+				problems = append(problems, "the chunk start is "+startT.String()+", not φ(offsets[0], the previous chunk end): chunks would overlap or leave gaps")
 			}
-			var lp *rangeLoop
-			for _, l := range rangeLoopsOf(fn) {
-				l := l
-				if l.Blocks()[call.Block()] {
-					lp = &l
+		case Match("idx(?o,?i)", offT, env):
+			// for i := 1; i < len(offsets); i++ { sortSmall(offsets[i-1], offsets[i]) }
+			o, i := env["o"].String(), env["i"].String()
+			if startT.String() != "idx("+o+",sub("+i+",c[1]))" && startT.String() != "idx("+o+",add(c[-1],"+i+"))" {
+				problems = append(problems, "the chunk start is "+startT.String()+", not offsets[i-1] for the chunk end offsets[i]: chunks would overlap or leave gaps")
+			}
+			ph, isPhi := env["i"].V.(*ssa.Phi)
+			okIdx := isPhi && hdrOfCall != nil && ph.Block() == hdrOfCall
+			if okIdx {
+				from1, step := false, false
+				for _, e := range ph.Edges {
+					if isConst(e, "1") {
+						from1 = true
+					} else if inc, ok := e.(*ssa.BinOp); ok && inc.Op == token.ADD && inc.X == ssa.Value(ph) && isConst(inc.Y, "1") {
+						step = true
+					} else {
+						okIdx = false
+					}
+				}
+				okIdx = okIdx && from1 && step
+				if iff := lastIf(hdrOfCall); iff == nil || condPolarity(tb.T(iff.Cond), "lt("+i+",call[len]("+o+"))", nil) == 0 {
+					okIdx = false
 				}
 			}
-			if lp == nil || !lp.Whole() {
-				problems = append(problems, "not every chunk is sorted (the loop over offsets[1:] can exit early)")
+			if !okIdx {
+				problems = append(problems, "the chunk index does not run from 1 in steps of 1 while i < len(offsets)")
+			}
+		default:
+			problems = append(problems, "the chunk end is "+offT.String()+", not an element of the offsets")
+		}
+		if env["o"] != nil {
+			if !wholeLoop() {
+				problems = append(problems, "not every chunk is sorted (the loop over the offsets can exit early)")
 			}
 			st := sorts[0].(*ssa.Call)
 			if tb.T(st.Call.Args[1]).String() != "c[0]" || tb.T(st.Call.Args[2]).String() != "sub(call[len]("+env["o"].String()+"),c[1])" {
